@@ -38,6 +38,7 @@ type Exec struct {
 	refHeaps          map[string]bool
 	addrBoxes         map[string]AddrV
 	noSafety          bool
+	iterStart         map[*ssa.BasicBlock]*State
 	appendMode        int
 	memo              map[string]*memoEntry
 	groups            map[string][][]Term
